@@ -49,7 +49,7 @@ func levelOf(i int) (bool, bool, string) {
 }
 
 func C01(c *core.Ctx) {
-	c.Rule = "valid quotes under fresh PKIs (auth data 0/32/700 bytes): single-bit mutants of the signed regions (header, TD body, attestation key, QE report, QE auth data, both signatures; all bits in the thorough tier, a stratified sample in the quick tier), structured forgeries (quote or QE report re-signed with a foreign key, swapped / zeroed / off-curve attestation key, zero and out-of-range signatures, broken hash binding with everything else re-signed, non-zero report-data tail, altered auth data, resized regions), random multi-byte mutation; each at one of the three option levels; abi.SignatureToDER on edge-value and random 64-byte signatures (leading zeros, high bits, zero, all-ones) and on other lengths, compared with the model encoder and read back strictly. Ground truth: an accepted input must satisfy the three links recomputed by the harness. non-trivial = the input still parses (reaches signature verification); distinct = distinct raw quotes"
+	c.Rule = "valid quotes under fresh PKIs (auth data 0/32/700 bytes): single-bit mutants of the signed regions (header, TD body, attestation key, QE report, QE auth data, both signatures; all bits in the thorough tier, a stratified sample in the quick tier), structured forgeries (quote or QE report re-signed with a foreign key, swapped / zeroed / off-curve attestation key, zero and out-of-range signatures, broken hash binding with everything else re-signed, non-zero report-data tail, altered auth data, resized regions), random multi-byte mutation; each at one of the three option levels; a QE report and its signature transplanted under another platform's chain after the donor quote was verified in the same process; abi.SignatureToDER on edge-value and random 64-byte signatures (leading zeros, high bits, zero, all-ones) and on other lengths, compared with the model encoder and read back strictly. Ground truth: an accepted input must satisfy the three links recomputed by the harness. non-trivial = the input still parses (reaches signature verification); distinct = distinct raw quotes"
 	r := c.Rng
 	mk := func(authLen int) *world.World {
 		pki, err := world.NewPKI(r, world.PKIOpts{Now: baseTime, Ext: world.RandomSGXExt(r)})
@@ -215,6 +215,9 @@ func C01(c *core.Ctx) {
 			{"fifth RTMR appended", func(q *pb.QuoteV4) { q.TdQuoteBody.Rtmrs = append(q.TdQuoteBody.Rtmrs, make([]byte, 48)) }},
 			{"attestation key with an extra trailing byte", func(q *pb.QuoteV4) { q.SignedData.EcdsaAttestationKey = append(q.SignedData.EcdsaAttestationKey, 0) }},
 			{"TeeType 0x181", func(q *pb.QuoteV4) { q.Header.TeeType = 0x181 }},
+			{"first 1 bytes of the QE auth data moved to the end of the attestation key (key || auth data unchanged)", func(q *pb.QuoteV4) { moveAuthToKey(q, 1) }},
+			{"first 7 bytes of the QE auth data moved to the end of the attestation key (key || auth data unchanged)", func(q *pb.QuoteV4) { moveAuthToKey(q, 7) }},
+			{"first 32 bytes of the QE auth data moved to the end of the attestation key (key || auth data unchanged)", func(q *pb.QuoteV4) { moveAuthToKey(q, 32) }},
 			{"MiscSelect bit flipped", func(q *pb.QuoteV4) { qe(q).QeReport.MiscSelect ^= 1 << 20 }},
 		}
 		for mi, m := range muts {
@@ -246,8 +249,75 @@ func C01(c *core.Ctx) {
 		}
 		try(w, "random-mutation", fmt.Sprintf("%d random bytes", n), raw)
 	}
+	// ---- a QE report and its signature transplanted under another platform's certificate chain,
+	// after the donor quote has been verified in the same process (a memo of verified signatures
+	// must be bound to the key that verified them) ----
+	for i := 0; i < c.Scale(2, 10); i++ {
+		donor, host := mk(32), mk(32)
+		c.Lookahead = 3
+		scD := scenarioFromWorld(donor, false, false)
+		runScenario(c, "transplant", "the donor quote, honest, under its own root", scD, func(cl uint64, err error) string {
+			if cl != 0 {
+				return "the unmodified genuine quote was rejected: " + err.Error()
+			}
+			return ""
+		}, true)
+		qa, err := abi.QuoteToProto(donor.Quote.Raw)
+		if err != nil {
+			panic(err)
+		}
+		m := proto.Clone(qa.(*pb.QuoteV4)).(*pb.QuoteV4)
+		cd := m.SignedData.CertificationData
+		pck := cd.QeReportCertificationData.PckCertificateChainData
+		chain := host.PKI.ChainPEM()
+		delta := uint32(len(chain)) - uint32(len(pck.PckCertChain))
+		pck.PckCertChain, pck.Size = chain, uint32(len(chain))
+		cd.Size += delta
+		m.SignedDataSize += delta
+		raw, serr := abi.QuoteToAbiBytes(m)
+		for k, useMsg := range []bool{true, false} {
+			c.Lookahead = 2 - k
+			sc := scenarioFromWorld(host, false, false)
+			if useMsg {
+				sc.UseMsg, sc.Msg = true, m
+			} else if serr == nil {
+				sc.Raw = raw
+			} else {
+				continue
+			}
+			runScenario(c, "transplant", fmt.Sprintf("the donor's header, body, key, QE report and signatures under the host platform's chain and root (message=%v)", useMsg), sc, func(cl uint64, err error) string {
+				if cl == 0 {
+					return "accepted although the QE report is not signed by the leaf certificate of the embedded chain (its signature was only ever valid under another platform's key)"
+				}
+				return ""
+			}, true)
+		}
+		c.Lookahead = 0
+		runScenario(c, "transplant", "the host's own honest quote", scenarioFromWorld(host, false, false), func(cl uint64, err error) string {
+			if cl != 0 {
+				return "the unmodified genuine quote was rejected: " + err.Error()
+			}
+			return ""
+		}, true)
+	}
 	_ = rand.Int
 	c01Der(c)
+}
+
+// moveAuthToKey moves the first k bytes of the QE authentication data to the end of the
+// attestation key field and keeps the size fields consistent: the concatenation that the
+// hash binding covers is unchanged, the quote is not the one that was signed.
+func moveAuthToKey(q *pb.QuoteV4, k int) {
+	cd := q.SignedData.CertificationData
+	ad := cd.QeReportCertificationData.QeAuthData
+	if len(ad.Data) < k {
+		return
+	}
+	q.SignedData.EcdsaAttestationKey = append(append([]byte{}, q.SignedData.EcdsaAttestationKey...), ad.Data[:k]...)
+	ad.Data = append([]byte{}, ad.Data[k:]...)
+	ad.ParsedDataSize -= uint32(k)
+	cd.Size -= uint32(k)
+	q.SignedDataSize -= uint32(k)
 }
 
 // c01Der: abi.SignatureToDER against the model's encoder, and an independent
